@@ -8,6 +8,7 @@ import (
 	"runtime"
 	"sync"
 	"sync/atomic"
+	"syscall"
 	"testing"
 	"unsafe"
 
@@ -272,4 +273,238 @@ func c20FirstUseChild() {
 		fmt.Println("C20-FIRST-USE-FAILED:", f)
 		os.Exit(3)
 	}
+}
+
+// ---- very large inputs (lengths around 2^31 and 2^32) ------------------------------------------------
+
+// HugeConvCase: a sub-slice [Off, Off+Len) of one 4 GiB + 64 KiB anonymous mapping (never reserved or
+// touched except for two pages per case).
+type HugeConvCase struct {
+	Off int64 `json:"off"`
+	Len int64 `json:"len"`
+}
+
+const hugeMapSize = 4<<30 + 64<<10
+
+var (
+	hugeOnce sync.Once
+	hugeMem  []byte
+)
+
+func hugeMapping() []byte {
+	hugeOnce.Do(func() {
+		m, err := syscall.Mmap(-1, 0, hugeMapSize, syscall.PROT_READ|syscall.PROT_WRITE, syscall.MAP_ANON|syscall.MAP_PRIVATE|syscall.MAP_NORESERVE)
+		if err == nil {
+			hugeMem = m
+		}
+	})
+	return hugeMem
+}
+
+func checkHugeConv(c HugeConvCase, cv *cov) (v *evid.Violation) {
+	if c.Off < 0 || c.Len < 1 || c.Off+c.Len > hugeMapSize {
+		return nil
+	}
+	m := hugeMapping()
+	if m == nil {
+		cv.label("huge mapping unavailable")
+		return nil
+	}
+	body := func() {
+		sub := m[c.Off : c.Off+c.Len : c.Off+c.Len]
+		// mark the first and last bytes (touches at most two pages)
+		first, last := byte(c.Len*7+c.Off+1)|1, byte(c.Len*13+c.Off+5)|2
+		sub[0], sub[len(sub)-1] = first, last
+		if len(sub) > 1 {
+			sub[0] = first
+		}
+		s := unsafex.BinaryToString(sub)
+		if int64(len(s)) != c.Len {
+			v = evid.Failf("BinaryToString on a %d-byte slice returns a string of length %d", c.Len, len(s))
+			return
+		}
+		if unsafe.StringData(s) != &sub[0] {
+			v = evid.Failf("BinaryToString on a %d-byte slice does not share memory with its argument", c.Len)
+			return
+		}
+		if s[0] != sub[0] || s[len(s)-1] != sub[len(sub)-1] {
+			v = evid.Failf("BinaryToString on a %d-byte slice: first/last byte differ from the argument", c.Len)
+			return
+		}
+		b := unsafex.StringToBinary(s)
+		if int64(len(b)) != c.Len || int64(cap(b)) != c.Len {
+			v = evid.Failf("StringToBinary on a %d-byte string returns len %d cap %d (cap must equal len)", c.Len, len(b), cap(b))
+			return
+		}
+		if &b[0] != unsafe.StringData(s) {
+			v = evid.Failf("StringToBinary on a %d-byte string does not share memory with its argument (it copied)", c.Len)
+			return
+		}
+		if b[0] != sub[0] || b[len(b)-1] != sub[len(sub)-1] {
+			v = evid.Failf("StringToBinary on a %d-byte string: first/last byte differ", c.Len)
+			return
+		}
+	}
+	if p, st := evid.Safe(body); p != nil {
+		return &evid.Violation{Msg: fmt.Sprintf("panic: %v", p), Stack: st}
+	}
+	cv.nontrivial = c.Len >= 1<<31-1
+	cv.labelIf(c.Len >= 1<<32, "len >= 2^32")
+	cv.labelIf(c.Len >= 1<<31 && c.Len < 1<<32, "2^31 <= len < 2^32")
+	cv.labelIf(c.Len < 1<<31, "len < 2^31")
+	return v
+}
+
+func init() { register("c20_huge", checkHugeConv) }
+
+func TestC20_Huge(t *testing.T) {
+	rec := evid.New("C20", "c20_huge", "rapid + boundary list: sub-slices of one 4 GiB + 64 KiB anonymous no-reserve mapping with lengths drawn around 2^16, 2^24, 2^31 and 2^32 (each +-0..9) and uniformly up to the mapping size, at offsets 0..4095; length, sharing (data pointers), cap == len and the first and last byte are checked without copying; non-trivial = length >= 2^31-1")
+	defer rec.Flush()
+	if hugeMapping() == nil {
+		rec.Assume("the 4 GiB no-reserve mapping could not be created in this environment; the check did not run")
+		return
+	}
+	for _, base := range []int64{1 << 31, 1 << 32} {
+		for d := int64(-2); d <= 7; d++ {
+			for _, off := range []int64{0, 1, 4095} {
+				c := HugeConvCase{Off: off, Len: base + d}
+				var cv cov
+				viol := checkHugeConv(c, &cv)
+				rec.Count(evid.HashJSON(c), cv.nontrivial, func() interface{} { return c }, cv.labels...)
+				if viol != nil {
+					failEnum(t, rec, "c20_huge", c, viol)
+					return
+				}
+			}
+		}
+	}
+	runRapid(t, rec, "c20_huge", evid.Pick(3000, 20000), func(t *rapid.T) HugeConvCase {
+		off := int64(rapid.IntRange(0, 4095).Draw(t, "off"))
+		var l int64
+		switch rapid.IntRange(0, 4).Draw(t, "lenKind") {
+		case 0:
+			l = int64(rapid.SampledFrom([]int64{1 << 16, 1 << 24, 1 << 31, 1 << 32}).Draw(t, "base")) + int64(rapid.IntRange(-9, 9).Draw(t, "d"))
+		case 1:
+			l = rapid.Int64Range(1, 1<<20).Draw(t, "small")
+		default:
+			l = rapid.Int64Range(1, hugeMapSize-4096).Draw(t, "len")
+		}
+		return HugeConvCase{Off: off, Len: l}
+	}, checkHugeConv)
+}
+
+// ---- arguments that a compiler could keep in a stack frame ---------------------------------------------
+
+// StackConvCase: BinaryToString of a fixed-size local array, whose result outlives the function that
+// created the array; afterwards other functions use (and overwrite) that part of the stack.
+type StackConvCase struct {
+	Size  int  `json:"size"` // 16, 48, 200, 1000
+	Seed  byte `json:"seed"`
+	Depth int  `json:"depth"` // frames of the clobbering recursion
+}
+
+//go:noinline
+func convLocal16(seed byte) string {
+	var a [16]byte
+	for i := range a {
+		a[i] = seed + byte(i)*3
+	}
+	return unsafex.BinaryToString(a[:])
+}
+
+//go:noinline
+func convLocal48(seed byte) string {
+	var a [48]byte
+	for i := range a {
+		a[i] = seed + byte(i)*3
+	}
+	return unsafex.BinaryToString(a[:])
+}
+
+//go:noinline
+func convLocal200(seed byte) string {
+	var a [200]byte
+	for i := range a {
+		a[i] = seed + byte(i)*3
+	}
+	return unsafex.BinaryToString(a[:])
+}
+
+//go:noinline
+func convLocal1000(seed byte) string {
+	var a [1000]byte
+	for i := range a {
+		a[i] = seed + byte(i)*3
+	}
+	return unsafex.BinaryToString(a[:])
+}
+
+//go:noinline
+func convLocalBack(seed byte, n int) []byte {
+	// a string built in this frame and converted back; the result outlives the frame
+	var a [64]byte
+	for i := range a {
+		a[i] = seed + byte(i)*3
+	}
+	s := string(a[:n])
+	return unsafex.StringToBinary(s)
+}
+
+//go:noinline
+func clobberStack(depth int, fill byte) byte {
+	var pad [700]byte
+	for i := range pad {
+		pad[i] = fill
+	}
+	if depth > 0 {
+		return clobberStack(depth-1, fill+1) + pad[depth%700]
+	}
+	return pad[0]
+}
+
+func checkStackConv(c StackConvCase, cv *cov) *evid.Violation {
+	var s string
+	switch c.Size {
+	case 16:
+		s = convLocal16(c.Seed)
+	case 48:
+		s = convLocal48(c.Seed)
+	case 200:
+		s = convLocal200(c.Seed)
+	case 1000:
+		s = convLocal1000(c.Seed)
+	default:
+		return nil
+	}
+	bb := convLocalBack(c.Seed, c.Size%65)
+	clobberStack(c.Depth&15, 0xE0)
+	cv.nontrivial = true
+	cv.label(fmt.Sprintf("local array of %d bytes", c.Size))
+	if len(s) != c.Size {
+		return evid.Failf("BinaryToString of a local [%d]byte: length %d", c.Size, len(s))
+	}
+	for i := 0; i < len(s); i++ {
+		if s[i] != c.Seed+byte(i)*3 {
+			return evid.Failf("BinaryToString of a local [%d]byte array: after the creating function returned and other functions ran, byte %d of the string reads %#x, want %#x (the string does not keep its memory alive)", c.Size, i, s[i], c.Seed+byte(i)*3)
+		}
+	}
+	if len(bb) != c.Size%65 || cap(bb) != len(bb) {
+		return evid.Failf("StringToBinary of a string built in a returned frame: len %d cap %d, want %d", len(bb), cap(bb), c.Size%65)
+	}
+	for i := range bb {
+		if bb[i] != c.Seed+byte(i)*3 {
+			return evid.Failf("StringToBinary of a string built in a returned frame: byte %d reads %#x, want %#x", i, bb[i], c.Seed+byte(i)*3)
+		}
+	}
+	return nil
+}
+
+func init() { register("c20_stack_conv", checkStackConv) }
+
+func TestC20_StackLocal(t *testing.T) {
+	rec := evid.New("C20", "c20_stack_local", "rapid: BinaryToString of a local fixed-size array ([16], [48], [200], [1000]byte) whose result is returned from the creating function, and StringToBinary of a string built in a returned frame; afterwards a recursion of 0..15 frames overwrites that part of the stack; content and length of the retained results are compared with the generating pattern; non-trivial = always")
+	defer rec.Flush()
+	runRapid(t, rec, "c20_stack_conv", evid.Pick(20000, 200000), func(t *rapid.T) StackConvCase {
+		return StackConvCase{Size: rapid.SampledFrom([]int{16, 48, 200, 1000}).Draw(t, "size"), Seed: rapid.Byte().Draw(t, "seed"), Depth: rapid.IntRange(0, 15).Draw(t, "depth")}
+	}, checkStackConv)
 }
